@@ -37,7 +37,15 @@ def _no_supplier(sc):
     return None
 
 
-PREDICATES = {"F13": _no_supplier}
+def _concave_tau1(sc):
+    """F24: a recovering event with the concave curve and a recovery time of one temporal unit"""
+    for i, ev in enumerate(sc["events"]):
+        if ev.get("curve") == "concave" and ev.get("recovery_tau") == 1:
+            return f"event {i} uses the concave curve with recovery_tau = 1"
+    return None
+
+
+PREDICATES = {"F13": _no_supplier, "F24": _concave_tau1}
 
 
 def match_scenario(pid, sc):
